@@ -28,7 +28,7 @@ STUBS = [
 ]
 OUTSIDE = ['the ASGI side of falcon.testing (ASGIConductor / async_to_sync spin a real event loop)', 'request bodies and media (C07, C12)',
            'header values longer than 3 characters']
-BUDGET = {'quick': 300, 'thorough': 1800}
+BUDGET = {'quick': 300, 'thorough': 900}
 LISTED = set(_kf()[0].get('C06', {}))
 
 _LATIN1_WS = (0x1c, 0x1d, 0x1e, 0x1f, 0x85, 0xa0)
